@@ -123,7 +123,8 @@ func (i *Index) Encode() ([]byte, error) {
 	if err := utils.Compress(buf, compressed); err != nil {
 		return nil, err
 	}
-	return compressed.Bytes(), nil
+	// compressed goes back to the pool, return a copy
+	return bytes.Clone(compressed.Bytes()), nil
 }
 
 func (i *Index) Decode(index []byte) error {
